@@ -105,7 +105,7 @@ def warm_gpg(sb):
                    input=b"warm-up", stdout=subprocess.DEVNULL, stderr=subprocess.DEVNULL)
 
 
-def run_upload(sb, emu, now=None, timeout=90, extra_env=None, args=None):
+def run_upload(sb, emu, now=None, timeout=90, extra_env=None, args=None, prefix=None):
     """returns dict(exit, out, seconds, timed_out, leftover=[cmdlines of processes of the session still alive])"""
     # a gpg that vsb terminated in an earlier run may have died between truncating and rewriting random_seed; the next gpg then prints a note
     # on stderr, which vsb reports as a failed upload.  That is gpg's state, not this run's fault: start every run from a warm home.
@@ -120,7 +120,7 @@ def run_upload(sb, emu, now=None, timeout=90, extra_env=None, args=None):
     if extra_env:
         env.update(extra_env)
     t0 = time.time()
-    p = subprocess.Popen([build.VSB, "-c", sb.cfg] + (args or ["upload"]), stdout=subprocess.PIPE, stderr=subprocess.STDOUT, env=env, cwd=sb.root,
+    p = subprocess.Popen((prefix or []) + [build.VSB, "-c", sb.cfg] + (args or ["upload"]), stdout=subprocess.PIPE, stderr=subprocess.STDOUT, env=env, cwd=sb.root,
                          start_new_session=True)
     timed_out = False
     try:
